@@ -1,4 +1,5 @@
 import RxModel.Pipeline
+import RxModel.Lemmas.TeePlain
 /-!
 # C08 — tee_map equals running each branch independently and joining the results
 
@@ -159,5 +160,38 @@ theorem C08_lifecycle {β γ} (mode : Join) (n : Nat) (mk : List (Option β) →
         · simp only [hj, if_false]; exact ih (by omega) h'
     simp only [joinStep, hi, if_true, hm]
     exact ⟨hq _ n h2 h1, hh _ n h2 h1⟩
+
+/-! ## plain observables -/
+
+/-- **tee_map on a plain observable = tee_map per key**, chunk by chunk: for every join, every
+number of branches ≥ 1 and all branches that never complete early and never raise (`CleanOp`:
+compositions of map / filter / scan / aggregates … with total user functions), the plain
+implementation (`_process_many.subscribe`) emits nothing at subscription, then for every source item
+and at completion exactly what the keyed implementation emits for one key. -/
+theorem C08_plain {α β γ} (mode : Join) (mk : List (Option β) → γ) (inj : β → γ) (lb : LBranches α β)
+    (hc : lb.AllClean) (hn : 0 < lb.length) (xs : List α) :
+    (teePlain mode mk inj (plainBranches lb)).run xs =
+      ([] :: ((localTee mode mk inj lb).runL (localTee mode mk inj lb).init xs).1,
+        ((localTee mode mk inj lb).runL (localTee mode mk inj lb).init xs).2) := by
+  have hstart : (teePlain mode mk inj (plainBranches lb)).start = ([], false) := by
+    simp only [teePlain, startOuts_ofLocal]
+    rw [psRel_allDone lb _ _ hn (psRel_init lb)]
+  have hrun := tee_plain_run mode mk inj lb hc hn xs (plainBranches lb).init lb.init
+    ⟨List.replicate lb.length none, List.replicate lb.length false⟩
+    ⟨List.replicate lb.length none, List.replicate lb.length false⟩ (psRel_init lb)
+    ⟨rfl, rfl, by simp, by split <;> simp⟩
+  have hinit : (teePlain mode mk inj (plainBranches lb)).init =
+      ((plainBranches lb).init, ⟨List.replicate lb.length none, List.replicate lb.length false⟩) := by
+    simp only [teePlain, startOuts_ofLocal, plainBranches_length]
+  unfold PlainOp.run
+  simp only [hstart, stopsP_eq, hasFatal_nil, Bool.or_self, Bool.false_eq_true, if_false]
+  rw [hinit, hrun]
+  rfl
+
+/-- non-vacuity: three branches (a filter, a running count, the identity), zip join -/
+example : ((teePlain .zip (fun (l : List (Option Nat)) => l) (fun x => [some x])
+    (plainBranches (.cons (filterOp (fun (n : Nat) => (Except.ok (n % 2 == 1) : Except Err Bool)) id)
+      (.cons (scanOp (fun (a n : Nat) => (Except.ok (a + 1) : Except Err Nat)) 0 false none) (.cons idLocal .nil))))).run [1, 2, 3]).1 =
+    [[], [.item [some 1, some 1, some 1]], [], [.item [some 3, some 2, some 2]]] := by decide
 
 end Rx
